@@ -52,8 +52,10 @@ PROPS["C10"] = {
                     "NUL-containing ids, ids of undispatched events: handled inside the specification interpreter (C01 ties the parser to it); shown here by Examples and by the correspondence"],
 }
 
+FAMILIES["read_c11"] = {"timeout_quick": 300, "timeout_thorough": 1800}
+
 PROPS["C11"] = {
-    "families": ["connect_c11"],
+    "families": ["connect_c11", "read_c11"],
     "level_text": ("Proof on the model of Connection.Connect, for every script: Connect never returns nil; what a stream hands to the Connection ends with exactly one error, "
                    "io.EOF after a terminated last line (or an empty stream), ErrUnexpectedEOF exactly for a clean end in mid-line, the reader's own error - cancellation "
                    "included - for a read error after any byte; every attempt before the last is retryable, so a validator error, a cancelled request or a cancelled read "
@@ -61,9 +63,12 @@ PROPS["C11"] = {
                    "ConnectionError{last attempt's error} exactly when backoff.next() - on the controller state given by the specification-side history of the run "
                    "(C12's schedule theorem applies to it) - refuses, or the context's error when the context is cancelled during a granted wait. Model = code is "
                    "checked on every run (real Connection behind a scripted RoundTripper; Connect's return projected with errors.Is / errors.As, injected errors carry "
-                   "an index; attempts counted at the RoundTripper), and an oracle re-derives the expected outcome of every observed run from the property text."),
+                   "an index; attempts counted at the RoundTripper), and an oracle re-derives the expected outcome of every observed run from the property text. The clause about sse.Read (a read error is yielded as "
+                   "itself, ErrUnexpectedEOF only for a clean end in mid-line, nothing for a clean end after a terminated line) is proved for the specification "
+                   "interpreter in Read mode and checked on the real sse.Read over a scripted reader (family read_c11)."),
     "level_note": CLIENT_NOTE + CONNECT_NOTE,
-    "rule": CONNECT_RULE,
+    "rule": CONNECT_RULE + " Family read_c11: sse.Read over the same stream grammar with clean / erroneous endings, all chunkings, the end reported with or after the last "
+            "bytes, plus endings after every byte position of seven short streams; corpus: D3 / D3b witnesses.",
     "assumptions": ["events larger than the scanner buffer (bufio.ErrTooLong) are outside the streams generated here (C20)",
                     "the context is cancelled only at the instants a script can name: inside RoundTrip, inside Read, inside OnRetry before a wait >= 0.9 s"],
 }
